@@ -70,6 +70,10 @@ func init() {
 		"(*sync.RWMutex).Unlock":       extNop,
 		"(*sync.RWMutex).RLock":        extNop,
 		"(*sync.RWMutex).RUnlock":      extNop,
+		// fork-join model: goroutines have finished when they are started, Wait never blocks
+		"(*sync.WaitGroup).Add":        extNop,
+		"(*sync.WaitGroup).Done":       extNop,
+		"(*sync.WaitGroup).Wait":       extNop,
 		"os.Stat":                      extOsStat,
 		"os.ReadFile":                  extOsReadFile,
 		"(*os.fileStat).IsDir":        extFileStatIsDir,
@@ -1296,7 +1300,7 @@ func extSortSlice(in *Interp, fn *ssa.Function, args []Value) Value {
 func hMapOrderSite(in *Interp, fn *ssa.Function, args []Value) Value {
 	in.permSite = int(int64(args[0].(Sc).C))
 	in.permInstances = 0
-	in.rangeSites = map[*ssa.Range]int{}
+	in.rangeSites = map[ssa.Instruction]int{}
 	if in.permSite < 0 {
 		in.permSite = -1
 	}
